@@ -91,12 +91,17 @@ IsHeaderTextRow(row) == \A i \in 1..Len(row) : StartsWith(row[i], <<STAR, STAR>>
 \* header rule: '**' + encoding prefix + original type, in both grids
 HeaderPair(cp, ce, pp, pe) == /\ StartsWith(ce, <<STAR, STAR>> \o pe) /\ StartsWith(cp, <<STAR, STAR>> \o pp)
                               /\ SubSeq(ce, 3 + Len(pe), Len(ce)) = SubSeq(cp, 3 + Len(pp), Len(cp))
+\* ga must be gb with F applied to every non-header cell, after dropping the lines F leaves with only null cells
+AllNullRow(row) == \A i \in 1..Len(row) : IsNullText(row[i])
 RowsRelated(ga, gb, pa, pb, F(_)) ==
-  /\ Len(ga) = Len(gb)
-  /\ \A r \in 1..Len(ga) :
-        /\ Len(ga[r]) = Len(gb[r])
-        /\ \A i \in 1..Len(ga[r]) : IF IsHeaderTextRow(gb[r]) THEN HeaderPair(ga[r][i], gb[r][i], pa, pb)
-                                                              ELSE NormCell(ga[r][i]) = NormCell(F(gb[r][i]))
+  LET mapped == [r \in 1..Len(gb) |-> IF IsHeaderTextRow(gb[r]) THEN gb[r] ELSE [i \in 1..Len(gb[r]) |-> F(gb[r][i])]]
+      kept == SelectSeq([r \in 1..Len(gb) |-> r], LAMBDA r : IsHeaderTextRow(gb[r]) \/ ~AllNullRow(mapped[r])) IN
+  /\ Len(ga) = Len(kept)
+  /\ \A k \in 1..Len(kept) :
+        LET r == kept[k] IN
+        /\ Len(ga[k]) = Len(gb[r])
+        /\ \A i \in 1..Len(ga[k]) : IF IsHeaderTextRow(gb[r]) THEN HeaderPair(ga[k][i], gb[r][i], pa, pb)
+                                                              ELSE NormCell(ga[k][i]) = NormCell(mapped[r][i])
 PerNoteBasic(t) == LET parts == SplitOn(t, SPACE) IN Join([i \in 1..Len(parts) |-> BasicNote(parts[i])], SPACE)
 NoLetters(t) == SelectSeq(t, LAMBDA c : c \notin 97..103 /\ c \notin 65..71)
 NoteCount(t) == Len(SplitOn(t, SPACE))
@@ -108,8 +113,11 @@ RelationChecks(e) ==
               << <<"relation.plain_is_extended_minus_separators", RowsRelated(a.grid, b.grid, EncPrefix(e.ea), EncPrefix(e.eb), StripSep)>> >>
          [] e.rel = "basic_vs_full" ->       \* a = basic extended, b = full extended
               << <<"relation.basic_is_full_minus_signifiers_per_note", RowsRelated(a.grid, b.grid, EncPrefix(e.ea), EncPrefix(e.eb), PerNoteBasic)>>,
-                 <<"relation.no_chord_note_lost", Len(a.grid) = Len(b.grid) /\ \A r \in 1..Len(a.grid) : Len(a.grid[r]) = Len(b.grid[r]) /\
-                        \A i \in 1..Len(a.grid[r]) : NoteCount(a.grid[r][i]) = NoteCount(b.grid[r][i])>> >>
+                 <<"relation.no_chord_note_lost", RowsRelated(a.grid, b.grid, EncPrefix(e.ea), EncPrefix(e.eb), PerNoteBasic) =>
+                        LET kept == SelectSeq([r \in 1..Len(b.grid) |-> r], LAMBDA r : IsHeaderTextRow(b.grid[r]) \/
+                                                 ~AllNullRow([i \in 1..Len(b.grid[r]) |-> PerNoteBasic(b.grid[r][i])])) IN
+                        \A k \in 1..Len(kept) : \A i \in 1..Len(a.grid[k]) :
+                            IsNullText(a.grid[k][i]) \/ NoteCount(a.grid[k][i]) = NoteCount(b.grid[kept[k]][i])>> >>
          [] e.rel = "agn_vs_kern" ->         \* a = agnostic plain, b = kern: only pitch letters may differ
               << <<"relation.agnostic_differs_only_in_pitch_letters",
                    /\ Len(a.grid) = Len(b.grid)
